@@ -5,7 +5,7 @@
 (*    [out  |-> "ok" | "nan",                                              *)
 (*     d    |-> the receiver afterwards (a Dec with all attributes),       *)
 (*     free |-> the fields the listed properties leave unconstrained,      *)
-(*     pid  |-> the property whose statement fixes the value]              *)
+(*     pid  |-> the set of properties whose statements fix the value]              *)
 (* The result depends on operand VALUES and on the receiver's precision    *)
 (* and mode only - never on aliasing, buffers or the receiver's previous   *)
 (* value: that the implementation conforms to such a specification is      *)
@@ -28,7 +28,7 @@ OkFree(r, p, mode, pid, free) ==
 Ok(r, p, mode, pid) == OkFree(r, p, mode, pid, {})
 (* an invalid operation: panics with ErrNaN; the receiver stays a valid Decimal with its   *)
 (* (possibly just assigned) precision and its mode; value, sign, accuracy are unspecified   *)
-NaN(p, mode) == [Outcome("nan", MkDec("zero", FALSE, Zero, IZero, p, mode, Exact), {"value", "acc"}, "C04") EXCEPT !.why = "nan"]
+NaN(p, mode) == [Outcome("nan", MkDec("zero", FALSE, Zero, IZero, p, mode, Exact), {"value", "acc"}, {"C04"}) EXCEPT !.why = "nan"]
 
 Special(form, neg) == Res(form, neg, Zero, IZero, Exact)
 
@@ -63,7 +63,7 @@ SumFinite(xneg, xN, xe, yneg, yN, ye, p, mode) ==
      ELSE IF xFar THEN SumFiniteFull(xneg, One, IAddInt(ye, -(p + 4)), yneg, yN, ye, p, mode)
      ELSE SumFiniteFull(xneg, xN, xe, yneg, yN, ye, p, mode)
 
-Pid2(x, y, pid) == IF x.form = "finite" /\ y.form = "finite" THEN pid ELSE "C04"
+Pid2(x, y, pid) == IF x.form = "finite" /\ y.form = "finite" THEN {pid} ELSE {"C04"}
 
 (***************************************************************************)
 (* Add / Sub:  x + (-1)^flip * y                                           *)
@@ -73,7 +73,8 @@ AddSub(z, x, y, flip) ==
       yneg == (y.neg # flip)
       pid  == Pid2(x, y, "C01")
   IN CASE x.form = "finite" /\ y.form = "finite" ->
-            Ok(SumFinite(x.neg, x.dig, CoefExp(x), yneg, y.dig, CoefExp(y), p, z.mode), p, z.mode, pid)
+            LET r == SumFinite(x.neg, x.dig, CoefExp(x), yneg, y.dig, CoefExp(y), p, z.mode)
+            IN Ok(r, p, z.mode, IF r.form = "zero" /\ r.acc = Exact THEN {"C01", "C04"} ELSE pid)   \* exact cancellation: the zero-sum sign rule
        [] x.form = "inf" /\ y.form = "inf" /\ x.neg # yneg -> NaN(p, z.mode)
        [] x.form = "zero" /\ y.form = "zero" ->
             Ok(Special("zero", ZeroSumNeg(x.neg, yneg, z.mode)), p, z.mode, pid)
@@ -113,7 +114,7 @@ OpFMA(z, x, y, u) ==
   LET p    == IF z.prec # 0 THEN z.prec ELSE MaxI(MaxI(x.prec, y.prec), u.prec)
       pneg == x.neg # y.neg                     \* sign of the product
       allf == x.form = "finite" /\ y.form = "finite" /\ u.form = "finite"
-      pid  == IF allf THEN "C03" ELSE "C04"
+      pid  == IF allf THEN {"C03"} ELSE {"C04"}
   IN CASE (x.form = "zero" /\ y.form = "inf") \/ (x.form = "inf" /\ y.form = "zero") -> NaN(p, z.mode)
        [] x.form = "inf" \/ y.form = "inf" ->                      \* infinite product
             IF u.form = "inf" /\ u.neg # pneg THEN NaN(p, z.mode)
@@ -126,7 +127,8 @@ OpFMA(z, x, y, u) ==
                 e == IAdd(CoefExp(x), CoefExp(y))
             IN CASE u.form = "inf"  -> Ok(Special("inf", u.neg), p, z.mode, pid)
                  [] u.form = "zero" -> Ok(RoundTo(pneg, N, One, e, p, z.mode), p, z.mode, pid)
-                 [] OTHER -> Ok(SumFinite(pneg, N, e, u.neg, u.dig, CoefExp(u), p, z.mode), p, z.mode, pid)
+                 [] OTHER -> LET r == SumFinite(pneg, N, e, u.neg, u.dig, CoefExp(u), p, z.mode)
+                             IN Ok(r, p, z.mode, IF r.form = "zero" /\ r.acc = Exact THEN {"C03", "C04"} ELSE pid)
 
 (* Mul followed by Add through a temporary of the receiver's precision and mode: *)
 (* what FMA must differ from exactly when the intermediate rounding matters       *)
@@ -140,32 +142,32 @@ MulThenAdd(z, x, y, u) ==
 (***************************************************************************)
 OpSet(z, x) ==
   LET p == IF z.prec # 0 THEN z.prec ELSE x.prec
-  IN Ok(SetLike(x.neg, x, p, z.mode), p, z.mode, IF x.form = "finite" THEN "C01" ELSE "C04")
+  IN Ok(SetLike(x.neg, x, p, z.mode), p, z.mode, IF x.form = "finite" THEN {"C01"} ELSE {"C04"})
 
 (* Neg/Abs: "round, then change the sign" (C01 says so); accuracy is not in C02's list *)
 OpNeg(z, x) ==
   LET p == IF z.prec # 0 THEN z.prec ELSE x.prec
       r == SetLike(x.neg, x, p, z.mode)
-  IN OkFree([r EXCEPT !.neg = ~r.neg], p, z.mode, IF x.form = "finite" THEN "C01" ELSE "C04", {"acc"})
+  IN OkFree([r EXCEPT !.neg = ~r.neg], p, z.mode, IF x.form = "finite" THEN {"C01"} ELSE {"C04"}, {"acc"})
 
 OpAbs(z, x) ==
   LET p == IF z.prec # 0 THEN z.prec ELSE x.prec
       r == SetLike(x.neg, x, p, z.mode)
-  IN OkFree([r EXCEPT !.neg = FALSE], p, z.mode, IF x.form = "finite" THEN "C01" ELSE "C04", {"acc"})
+  IN OkFree([r EXCEPT !.neg = FALSE], p, z.mode, IF x.form = "finite" THEN {"C01"} ELSE {"C04"}, {"acc"})
 
 (* Copy: everything, attributes included (documented; "DOC" level) *)
-OpCopy(z, x) == Outcome("ok", x, {}, "DOC")
+OpCopy(z, x) == Outcome("ok", x, {}, {"DOC"})
 
 OpSetPrec(z, prec) ==
   IF prec = 0
   THEN (IF z.form = "finite"
-        THEN Outcome("ok", MkDec("zero", z.neg, Zero, IZero, 0, z.mode, IF z.neg THEN Above ELSE Below), {}, "DOC")
-        ELSE Outcome("ok", [z EXCEPT !.prec = 0, !.acc = Exact], {}, "DOC"))
+        THEN Outcome("ok", MkDec("zero", z.neg, Zero, IZero, 0, z.mode, IF z.neg THEN Above ELSE Below), {}, {"DOC"})
+        ELSE Outcome("ok", [z EXCEPT !.prec = 0, !.acc = Exact], {}, {"DOC"}))
   ELSE LET p == MinI(prec, MaxPrec)
-       IN Ok(SetLike(z.neg, z, p, z.mode), p, z.mode, IF z.form = "finite" THEN "C01" ELSE "C04")
+       IN Ok(SetLike(z.neg, z, p, z.mode), p, z.mode, IF z.form = "finite" THEN {"C01"} ELSE {"C04"})
 
-OpSetMode(z, m) == Outcome("ok", [z EXCEPT !.mode = m, !.acc = Exact], {}, "DOC")
-OpSetInf(z, neg) == Outcome("ok", MkDec("inf", neg, Zero, IZero, z.prec, z.mode, Exact), {}, "DOC")
+OpSetMode(z, m) == Outcome("ok", [z EXCEPT !.mode = m, !.acc = Exact], {}, {"DOC"})
+OpSetInf(z, neg) == Outcome("ok", MkDec("inf", neg, Zero, IZero, z.prec, z.mode, Exact), {}, {"DOC"})
 
 (***************************************************************************)
 (* MantExp / SetMantExp (C20)                                              *)
@@ -173,14 +175,35 @@ OpSetInf(z, neg) == Outcome("ok", MkDec("inf", neg, Zero, IZero, z.prec, z.mode,
 (* z := mant * 10^e with mant's precision and mode; the exponent sum is exact (BigInt) *)
 OpSetMantExp(z, m, e) ==
   IF m.form = "finite"
-  THEN Ok(RoundTo(m.neg, m.dig, One, IAdd(CoefExp(m), e), m.prec, m.mode), m.prec, m.mode, "C20")
-  ELSE Ok(Special(m.form, m.neg), m.prec, m.mode, "C20")
+  THEN Ok(RoundTo(m.neg, m.dig, One, IAdd(CoefExp(m), e), m.prec, m.mode), m.prec, m.mode, {"C20"})
+  ELSE Ok(Special(m.form, m.neg), m.prec, m.mode, {"C20"})
 
 (* x.MantExp(z): returns x's exponent (0 for zeros and infinities); z, if given, := x with exponent 0 *)
 MantExpRet(x) == IF x.form = "finite" THEN x.exp ELSE IZero
 OpMantExp(z, x) ==
   OkFree([form |-> x.form, neg |-> x.neg, dig |-> x.dig, exp |-> IZero, acc |-> x.acc, why |-> "special"],
-         x.prec, x.mode, "C20", {"acc"})
+         x.prec, x.mode, {"C20"}, {"acc"})
+
+(***************************************************************************)
+(* Raw mantissa access (C20).  words: little-endian word vector (BigNats   *)
+(* below 10^dw), e: BigInt.  The receiver becomes the POSITIVE value       *)
+(* 0.words * 10^e = N * 10^(e - dw*len), rounded to its precision; an      *)
+(* all-zero (or empty) slice gives +0.  For a precision-0 receiver the     *)
+(* documentation names no precision: pobs (the precision read back) is     *)
+(* used, and the caller checks that nothing was rounded then.              *)
+(***************************************************************************)
+OpSetBitsExp(z, words, e, dw, pobs) ==
+  LET N == ConcatWords(words, dw)
+      p == IF z.prec # 0 THEN z.prec ELSE pobs
+  IN IF N = Zero THEN OkFree(Special("zero", FALSE), z.prec, z.mode, {"C20"}, {})
+     ELSE OkFree(RoundTo(FALSE, N, One, IAddInt(e, -(dw * Len(words))), IF p = 0 THEN 1 ELSE p, z.mode), p, z.mode, {"C20"},
+                 IF z.prec = 0 THEN {"prec"} ELSE {})
+
+(* the mantissa words of z itself (as BitsExp returns them) with a new exponent *)
+OpSetBitsExpSelf(z, e, pobs) ==
+  IF z.form # "finite" THEN OkFree(Special("zero", FALSE), z.prec, z.mode, {"C20"}, {})
+  ELSE LET p == IF z.prec # 0 THEN z.prec ELSE pobs
+       IN Ok(RoundTo(FALSE, z.dig, One, IAddInt(e, -Len(z.dig)), p, z.mode), p, z.mode, {"C20"})
 
 (***************************************************************************)
 (* Machine-integer setters (C14, accuracy C02)                             *)
@@ -188,8 +211,8 @@ OpMantExp(z, x) ==
 (* neg, magnitude N (BigNat), times 10^e *)
 OpSetIntLike(z, neg, N, e, pdef) ==
   LET p == IF z.prec # 0 THEN z.prec ELSE pdef
-  IN IF N = Zero THEN Ok(Special("zero", neg), p, z.mode, "C14")
-     ELSE Ok(RoundTo(neg, N, One, e, p, z.mode), p, z.mode, "C14")
+  IN IF N = Zero THEN Ok(Special("zero", neg), p, z.mode, {"C14"})
+     ELSE Ok(RoundTo(neg, N, One, e, p, z.mode), p, z.mode, {"C14"})
 
 OpSetInt64(z, neg, N)  == OpSetIntLike(z, neg, N, IZero, DefaultPrec)
 OpSetUint64(z, N)      == OpSetIntLike(z, FALSE, N, IZero, DefaultPrec)
